@@ -29,7 +29,7 @@ def coord():
 
 
 def s_case(dim):
-    pose = gens.pose3(t_hi=6) if dim == 3 else gens.pose2(t_hi=6)
+    pose = gens.pose3(t_hi=6, tiny=True) if dim == 3 else gens.pose2(t_hi=6)
     pt = st.lists(coord(), min_size=dim, max_size=dim)
     return st.fixed_dictionaries({
         "kind": st.just("pt%d" % dim),
@@ -38,6 +38,8 @@ def s_case(dim):
         "pts": st.one_of(st.lists(pt, min_size=1, max_size=1), st.lists(pt, min_size=1, max_size=7), st.lists(pt, min_size=dim, max_size=dim)),
         "form": st.sampled_from(FORMS),
         "int_points": st.booleans(),
+        # element type of the point array: values are then integers spread over the range of that type
+        "ptype": st.sampled_from([None, None, None, None, "int8", "int16", "uint8", "uint16", "int32", "float32"]),
     })
 
 
@@ -51,9 +53,11 @@ def _pose_ref(spec, dim):
     return refs.pose3_of(spec) if dim == 3 else refs.pose2_of(spec)
 
 
-def _arg(P, form):
-    """P is (d, N) float array; realise the point argument in the given container form"""
+def _arg(P, form, ptype=None):
+    """P is (d, N) float array; realise the point argument in the given container form (ndarray forms in element type ptype)"""
     d, n = P.shape
+    if ptype:
+        P = P.astype(np.dtype(ptype))
     if form == "matrix" or n > 1:
         return P.copy()
     v = P[:, 0]
@@ -88,15 +92,24 @@ def _pt(case, dim):
     P = arr(case["pts"]).T              # (d, N)
     if case["int_points"]:
         P = np.round(np.clip(P, -1e6, 1e6))
+    ptype = case.get("ptype")
+    if ptype:
+        # the same numbers in a narrow element type, spread over its whole range (products of them overflow the TYPE, not float64)
+        hi = {"int8": 127, "int16": 32767, "uint8": 255, "uint16": 65535, "int32": 2 ** 31 - 1, "float32": 1e6}[ptype]
+        m = float(np.max(np.abs(P))) or 1.0
+        P = np.round(P / m * hi * 0.97)
+        if ptype.startswith("u"):
+            P = np.abs(P)
     N = P.shape[1]
     form = case["form"]
-    sc = max(1.0, float(np.max(np.abs(t))), float(np.max(np.abs(P))))
+    # 'relative to the data magnitude': no floor at 1, so that micrometre-scale data are judged at their own scale
+    sc = max(1e-300, float(np.max(np.abs(t))), float(np.max(np.abs(P))))
     tol = 1e-9
     c = Checker("pt%d" % dim, N=N, form=form if N == 1 else "matrix", nvals=len(Ts), dim=dim)
     want_se = R @ P + t[:, None]
     want_so = R @ P
     SOc, SEc = (L.SO3, L.SE3) if dim == 3 else (L.SO2, L.SE2)
-    arg = _arg(P, form)
+    arg = _arg(P, form, ptype)
     X_se = SEc(T.copy(), check=False)
     X_so = SOc(R.copy(), check=False)
     ok, got = c.lib("SE*p", lambda: X_se * arg)
